@@ -55,6 +55,12 @@ def wild_len(rng, nonneg=True, finite=True):
         x = abs(x)
     return x
 
+def moderate_len(rng):
+    """arbitrary (inexact) non-negative finite floats of moderate magnitude"""
+    if rng.random() < 0.6:
+        return rng.uniform(0, 10)
+    return rng.random() * 10.0 ** rng.randint(-6, 6)
+
 def fmt_float(x):
     """a decimal text Rust parses to exactly x"""
     if math.isinf(x):
@@ -163,6 +169,8 @@ def assign_lengths(t, rng, mode='exact', root_len=False, p_missing=0.0, zero_ok=
             nd.length = exact_len(rng, zero_ok)
         elif mode == 'wild':
             nd.length = wild_len(rng)
+        elif mode == 'mod':
+            nd.length = moderate_len(rng)
         elif mode == 'ones':
             nd.length = 1.0
         else:
